@@ -209,8 +209,15 @@ def model_outcome(answer):
     return ('driver', answer[:300], None)
 
 
+MODEL_RUN_LIMIT = 90   # seconds per netlist: the extracted model works on association lists; on the largest bundled designs
+                       # emit + elab + rt_check take many minutes, which is counted (not compared), never a verdict
+
+
 def run_model(line):
-    r = subprocess.run([DRIVER], input=line + '\n', capture_output=True, text=True)
+    try:
+        r = subprocess.run([DRIVER], input=line + '\n', capture_output=True, text=True, timeout=MODEL_RUN_LIMIT)
+    except subprocess.TimeoutExpired:
+        return 'unsup model-run-exceeds-%ds' % MODEL_RUN_LIMIT
     if r.returncode != 0:
         raise RuntimeError('driver_verilog failed: ' + r.stderr[-500:])
     return r.stdout.split('\n')[0]
